@@ -339,7 +339,7 @@ def run(ctx):
                                 and [txt(e) for e in s.targets[0].elts] == [star[0], dstar[0]]:
                             src = s.value
                     ok = isinstance(src, ast.Call) and callee_last(src) == "validate_inputs" \
-                        and [txt(a) for a in src.args] == ["args", "kwargs"]
+                        and [txt(a) for a in src.args] + [txt(k.value) for k in src.keywords if k.arg] == ["args", "kwargs"]
                 ctx.ob("R5", f, f"{label} check_types wrapper calls wrapped with validated inputs", ok,
                        "wrapped(*validated_pos, **validated_kwd) from validate_inputs(args, kwargs)" if ok else
                        f"wrapped is called as `{txt(c)}`", f.loc(c))
